@@ -207,6 +207,19 @@ def run(repo: Repo, rep: Report, tier: str) -> None:
             has_w = any(match(k, rk) for k in wkeys) or rk in ("multi_conditions", "entity_obj")
             rep.check(has_w, "C07-R4", f"{kind}: key '{rk}' read by the configurator has a writer", "written" if has_w else "no producer writes this key (one-sided rename?)", emit_cls.loc())
     rep.floor("C07-R4", "configuration keys on combinator placements", n_keys, 20)
+    # operand-side agreement inside the configurators
+    from ..sides import side_flows, slot_side
+    n_flows = 0
+    for fn in ("_configure_decider", "_configure_arithmetic"):
+        f = emit_cls.methods[fn]
+        for key, side, slot, node in side_flows(f):
+            ss = slot_side(slot)
+            if ss is None:
+                continue
+            n_flows += 1
+            rep.check(ss in (side, "either"), "C07-R4", f"{fn}: value of '{key}' feeds a {side}-hand slot ({slot})",
+                      "sides agree" if ss in (side, "either") else f"'{key}' is written into '{slot}': the {('second' if side == 'left' else 'first')} operand is configured from the other operand's data", f.loc(node))
+    rep.floor("C07-R4", "operand-side flows in the configurators", n_flows, 8)
     # condition rows
     mb = repo.cls("MemoryBuilder")
     ep = repo.cls("EntityPlacer")
